@@ -109,6 +109,9 @@ func (fr *frame) execBlock(b *ssa.BasicBlock, st *bstate) {
 			r := f.newAllocRef(fr.inLoop(b))
 			fr.vals[x] = Val{K: KRef, T: x.Type(), Tm: r}
 			st.heap = f.setGhostAt(st.heap, chanClosedGhost(x.Type()), sortBool, r, "false")
+			if !f.dry {
+				f.localChans = append(f.localChans, &localChan{ref: r, t: x.Type()})
+			}
 			f.exact["MakeChan"]++
 		case *ssa.MakeClosure:
 			fn := x.Fn.(*ssa.Function)
@@ -136,8 +139,12 @@ func (fr *frame) execBlock(b *ssa.BasicBlock, st *bstate) {
 			if f.sweep["close"] {
 				ch := fr.val(x.Chan)
 				closed := f.ghostAt(st.heap, chanClosedGhost(x.Chan.Type()), sortBool, ch.Tm)
+				if ok, where := f.e.neverClosed(x.Chan); ok {
+					f.assume(st, not(closed), "no code in the module closes the channels kept in "+where)
+				}
 				f.oblige(st, fmt.Sprintf("%s#send-on-open:%s", fnShortName(fr.fn), valueLabel(x.Chan)), "safety", f.sweepTags, not(closed), "send on channel that may be closed", posStr(f.e.fset, x.Pos()))
 			}
+			fr.noteSend(x, st)
 			f.exact["Send"]++
 		case *ssa.Store:
 			addr := fr.val(x.Addr)
@@ -151,6 +158,9 @@ func (fr *frame) execBlock(b *ssa.BasicBlock, st *bstate) {
 			fr.checkFieldStore(x.Addr, st, x.Pos())
 			if g, ok := x.Addr.(*ssa.Global); ok && !f.e.mutableGlobals[g] {
 				continue // init-time store
+			}
+			if a, isAlloc := x.Addr.(*ssa.Alloc); !isAlloc || fr.escaping[a] {
+				f.publish(fr.val(x.Val))
 			}
 			st.heap = f.store(st.heap, addr, pt.Elem(), fr.val(x.Val))
 			f.exact["Store"]++
@@ -435,6 +445,8 @@ func (fr *frame) mapUpdate(x *ssa.MapUpdate, st *bstate) {
 		f.abstr["MapUpdate-structvalue"]++
 	}
 	st.heap = nh
+	f.publish(v)
+	fr.noteTransient(x, st, m.Tm, k.Tm, dk)
 }
 
 func (f *FnCtx) mapLenFn(mt *types.Map) string {
@@ -609,6 +621,21 @@ func (fr *frame) selectInstr(x *ssa.Select, st *bstate) {
 			}
 		}
 	}
+	// a send case that is taken on a closed channel panics (also with a default case)
+	if f.sweep["close"] && !fr.recovers() {
+		for i, s := range x.States {
+			if s.Dir != types.SendOnly {
+				continue
+			}
+			ch := fr.val(s.Chan)
+			closed := f.ghostAt(st.heap, chanClosedGhost(s.Chan.Type()), sortBool, ch.Tm)
+			if ok, where := f.e.neverClosed(s.Chan); ok {
+				f.assume(st, not(closed), "no code in the module closes the channels kept in "+where)
+			}
+			f.oblige(st, fmt.Sprintf("%s#send-on-open:%s", fnShortName(fr.fn), valueLabel(s.Chan)), "safety", f.sweepTags,
+				implies(eq(idx, intLit(int64(i))), not(closed)), "send case of a select on a channel that may be closed", posStr(f.e.fset, x.Pos()))
+		}
+	}
 	fr.noteSelect(x, st)
 }
 
@@ -623,6 +650,12 @@ func (fr *frame) typeAssert(x *ssa.TypeAssert, st *bstate) {
 	ok, payload := f.typeTest(v, x.AssertedType)
 	okN := f.c.define("ta.ok", sortBool, ok)
 	f.exact["TypeAssert"]++
+	// a value boxed with an integer type lies in that type's range
+	if kindOf(x.AssertedType) == KInt {
+		if t := f.typeRangeTerm(payload); t != "true" {
+			f.assume(st, implies(okN, t), "type range of a boxed integer")
+		}
+	}
 	if x.CommaOk {
 		z := f.zeroVal(x.AssertedType)
 		fr.vals[x] = Val{K: KTuple, T: x.Type(), Fs: []Val{f.nameVal("ta.v", f.iteVal(okN, payload, z)), boolVal(okN)}}
